@@ -18,3 +18,6 @@ func NoLoopFilter() bool { return false }
 
 // Range is a no-op without the verif build tag.
 func Range(site string, base, end, w, nw, lo, hi int) {}
+
+// PoolPut is a no-op without the verif build tag.
+func PoolPut(name string) {}
